@@ -537,13 +537,60 @@ func (p *Prog) reachableFuncs(roots ...*ssa.Function) map[*ssa.Function]bool {
 	if fullSSABodies {
 		return p.reachableFuncsVTA(roots...)
 	}
+	// static calls, closures and function arguments, then closed under calls through constant
+	// package-level tables of functions and function-typed parameters (dDynCallees): a switch
+	// turned into a dispatch table must not hide the strategy functions from the rules.
+	seen := p.reachableStatic(roots...)
+	for changed := true; changed; {
+		changed = false
+		for _, fn := range sortedFuncs(seen) {
+			if !p.IsRepoFunc(fn) {
+				continue
+			}
+			for _, ci := range callsIn(fn) {
+				if ci.Common().IsInvoke() || staticCallee(ci.Common()) != nil {
+					continue
+				}
+				fs, ok := dDynCallees(p, ci)
+				if !ok {
+					continue
+				}
+				for _, f := range fs {
+					if seen[f] {
+						continue
+					}
+					for g := range p.reachableStatic(f) {
+						if !seen[g] {
+							seen[g] = true
+							changed = true
+						}
+					}
+				}
+			}
+		}
+	}
+	return seen
+}
+
+func (p *Prog) reachableStatic(roots ...*ssa.Function) map[*ssa.Function]bool {
 	seen := map[*ssa.Function]bool{}
+	synth := map[*ssa.Function]bool{}
 	var visit func(fn *ssa.Function)
 	visit = func(fn *ssa.Function) {
 		if fn == nil || seen[fn] || len(fn.Blocks) == 0 {
 			return
 		}
 		if fn.Pkg == nil && fn.Parent() == nil {
+			// synthetic wrapper (method expression thunk, bound-method closure, promoted-method
+			// wrapper): not a repository function itself, but it calls one statically
+			if fn.Synthetic != "" && !synth[fn] {
+				synth[fn] = true
+				for _, c := range callsIn(fn) {
+					if cal := staticCallee(c.Common()); cal != nil {
+						visit(cal)
+					}
+				}
+			}
 			return
 		}
 		root := fn
